@@ -58,7 +58,7 @@ package query
 //@   loop 5 invariant 0 <= i && i < len(*ncs) && i == at_loop(1, i) && len(*ncs) == at_loop(1, len(*ncs))
 //@   loop 5 decreases commonFactor
 //@   loop 6 invariant -1 <= rangeindex
-//@   loop 6 invariant exactdiv: implies(rangeindex == -1, nc.Number * commonFactor == before_loop(3, nc.Number))
+//@   loop 6 invariant exactdiv@C03: implies(rangeindex == -1, nc.Number * commonFactor == before_loop(3, nc.Number))
 //@   loop 6 invariant 0 <= i && i < len(*ncs) && i == at_loop(1, i) && len(*ncs) == at_loop(1, len(*ncs))
 //@   loop 6 decreases len(nc.Summands) - rangeindex
 //@   loop 7 invariant 1 <= i
